@@ -58,6 +58,11 @@ def setup_engine(seed=0):
         return E.bool_sv(z3.And(Val.is_VStr(t), z3.simplify(n == f(inv(n)))))
     E.models[S.is_slot_name] = m_is_slot_name
 
+    def m_same(E, args, kw):
+        a, b = args
+        return E.bool_sv(E.lift(a) == E.lift(b))
+    E.models[S.same] = m_same
+
     # the table predicates of generated classes: symbolically "is a generated
     # struct / union class" -- the tables themselves are the built-in model
     # (pyvc/genmodel.py); natively the SpecPy text is evaluated on the real tables
